@@ -533,7 +533,8 @@ def addr_base58_to_pubkeyhash(address, as_hex=False):
     """
 
     try:
-        address = change_base(address, 58, 256, 25)
+        # No min_length: a short payload must not be left-padded to 25 bytes (address without its leading '1')
+        address = change_base(address, 58, 256)
     except EncodingError as err:
         raise EncodingError("Invalid address %s: %s" % (address, err))
     if len(address) != 25:
